@@ -198,8 +198,14 @@ root at `x`, each prime counted once per distinct root (`class_loops_cover`) —
 bucket tables (`tableHits`), exactly in the checked profile and modulo 256 in release. When the factor base has no
 prime ≥ 32768 (`s.tables.size = 0`: no bucket table exists and the code returns before the table loops) this is
 the complete closed form `blk[x] = Σ bitlen p over the non-skipped primes with a root at x`.
-PARTIAL (name): for primes ≥ 32768 it is not proved that the bucket entries read back are exactly the hits
-registered by `new`/`rehash` for this block (the oracle checks the closed form including them on the code). -/
+PARTIAL (name): the table term `hitSum th x` is expanded into `Σ bitlen p over the table primes with a root at x` only
+in `accumulator_spec_tables` (bases below 2^18, path `new → rounds → sieve_block`, no counted overflow). Missing for the
+general statement: (1) `LTable` analogue of `Table.foldl_bucket_exact`/`new_tablesExact` (buckets of 1024 in 16384-wide
+windows, unbounded overflow vector, read through `ltableBucketHits`): `hitSum` of the large-table part
+`= Σ_{pidx ≥ ibl[19]} tabF pidx`; (2) `TablesExact` after `rehash` (re-filled tables: `rehashTable` resets then runs the
+same `newLargeStep` fold with the new roots and `blkNo = 0`); (3) with `nOverflows > 0` in a class 16..18 table:
+`hitSum th x ≤ Σ tabF` (a bucket then holds a prefix-filtered sublist of `flatMap partL`), which gives no-overflow but
+only `≤` for the closed form. The oracle checks the closed form including all of these on the code. -/
 theorem accumulator_spec_partial (dbg : Bool) (fb : FB) (hfb : fb.WF) (r1 r2 : Array Nat) (hr : RootsOK fb r1 r2)
     (offset : Int) (nblocks : Nat) (recycled : Option (Array Table × Array LTable)) (hrec : RecycledOK recycled)
     (s0 s1 s : State) (h0 : Sieve.new offset nblocks fb r1 r2 recycled = some s0)
